@@ -148,7 +148,14 @@ def check_case(case):
         return '-'
 
     for step, op in enumerate(case['ops']):
+        if any(isinstance(part, list) and part[:1] == ['under'] for part in op[1:2]) and \
+                not (obj.__dict__['_strict'] and op[0] == 'setattr'):
+            # `obj._X = ...` pokes at a private slot; only the strict clause ("no assignment can create a new
+            # non-variable attribute") speaks about it, so it is applied under strict only
+            continue
         before = snapshot.snapshot(obj)
+        keys_before = set(obj.__dict__)
+        n_attrs_before = len(obj.__dict__['_attributes'])
         k = op[0]
         verdict = 'any'          # 'ok' (with prediction), 'reject', or 'any'
         predicted = None
@@ -226,8 +233,9 @@ def check_case(case):
             if out.ok or not isinstance(out.exc, (AttributeError, NotImplementedError)):
                 # (NotImplementedError is the documented outcome when several variables differ only by case)
                 res.fail(f'strict/new-attribute-not-rejected/op={k}', f'{detail}: {out!r}')
-            elif ('_' + name) in obj.__dict__ or name in obj.__dict__:
-                res.fail(f'strict/attribute-created/op={k}', f'{detail}: __dict__ gained {name}')
+            elif set(obj.__dict__) - keys_before or len(obj.__dict__['_attributes']) != n_attrs_before:
+                res.fail(f'strict/attribute-created/op={k}', f'{detail}: __dict__ gained {sorted(set(obj.__dict__) - keys_before)}, '
+                         f'attributes {obj.__dict__["_attributes"][n_attrs_before:]}')
             elif op[1][0] == 'near':
                 orig = vs[op[1][1] % len(vs)]
                 lowers = [v.lower() for v in vs]
@@ -285,7 +293,7 @@ SPANS = [{'k': 'range', 'start': 3, 'n': 3, 'step': 1}, {'k': 'list', 'items': [
 
 
 def reduced_ops(n):
-    sel = [['var', 0], ['var', 1], ['var', 3], ['new', 'Q'], ['near', 0]]
+    sel = [['var', 0], ['var', 1], ['var', 3], ['new', 'Q'], ['near', 0], ['under', 0], ['under', 2]]
     operands = [{'scalar': 7}, {'scalar': 'nan'}, {'scalar': {'s': 'zz'}}, {'list': [1] * n}, {'list': [1] * (n + 1)},
                 {'tuple': [2.5] * n}, {'range': n}, {'nested': [[1, 2]] * n}, {'nested': [[1] * n]}, {'nested': [[1] * n] * 2},
                 {'np': [1.0] * n, 'dtype': 'float'}, {'np': [[1.0, 2.0]] * n, 'dtype': 'float'}, {'np': 3.0, 'dtype': 'float'},
